@@ -623,7 +623,7 @@ def calc_fisher_matrix_total(
             )
 
     ### calculate
-    matrix_size = prob_dists[0].shape[0]
+    matrix_size = len(grad_prob_dists[0][0])
     matrix = np.zeros((matrix_size, matrix_size))
     for index in range(size_prob_dists):
         matrix += weights[index] * calc_fisher_matrix(
